@@ -15,7 +15,6 @@ import (
 	"os"
 	"regexp"
 	"runtime/debug"
-	"runtime/pprof"
 	"strings"
 	"time"
 
@@ -384,11 +383,10 @@ var frameRe = regexp.MustCompile(`capnproto\.org/go/capnp/v3[A-Za-z0-9_/.]*\.(\(
 // panicKey builds a stable classification key: panic text with numbers
 // normalised + innermost library function on the stack.
 func panicKey(p interface{}, stack []byte) string {
-	msg := fmt.Sprint(p)
+	msg := digits.ReplaceAllString(fmt.Sprint(p), "N")
 	if len(msg) > 60 {
 		msg = msg[:60]
 	}
-	msg = digits.ReplaceAllString(msg, "N")
 	fn := ""
 	for _, m := range frameRe.FindAll(stack, -1) {
 		f := string(m)
@@ -970,21 +968,17 @@ func main() {
 		childMain(p)
 		return
 	}
-	if f := os.Getenv("VERIF_CPUPROFILE"); f != "" {
-		if fh, err := os.Create(f); err == nil {
-			pprof.StartCPUProfile(fh)
-			go func() { time.Sleep(20 * time.Second); pprof.StopCPUProfile(); fh.Close() }()
-		}
-	}
 	debug.SetGCPercent(800)
 	vlib.Main(vlib.Spec{
 		ID:    "C01",
 		Level: "exploration",
-		Rule:  "bounded-exhaustive enumeration of messages = segment configuration x words from a per-position boundary-complete alphabet (package hostile: every pointer kind with start or end of the referenced region on every word boundary in [-1,L+1], field extrema, composite tags incl. zero-size x count -1, far/double-far to every segment id incl. out of range and every landing word, capability and unknown pointers, data words); every message under bare Single/MultiSegment arenas, a harness Arena, Unmarshal, UnmarshalPacked(ref.Pack), NewDecoder, NewPackedDecoder and a buffer-reusing Decoder; messages that hand out at least one object additionally under T in {default,64,2^40} x D in {default,3}; a walker applies the read-side API (Root, struct accessors, every list wrapper Len/At(0)/At(Len-1)/String, Text/Data, Equal, Canonicalize, SetRoot deep copy into fresh Single/Multi messages, text.Marshal and pogs.Extract as Z/PlaneBase/Regression/HoldsText/Counter) to everything reachable to depth 6. A message is non-trivial if the library handed out at least one non-null object for it.",
+		Rule:  "bounded-exhaustive enumeration of messages = segment configuration x words from a per-position boundary-complete alphabet (package hostile: every pointer kind with start or end of the referenced region on the word boundaries in [-1,L+1], field extrema, composite tags incl. zero-size x count -1, far/double-far to every segment id incl. out of range and every landing word, capability and unknown pointers, data words; four alphabet sizes full ~180, core ~130, mini ~75, micro ~35 words per position). Configurations: 1 segment of 0,1,2 words (full), 3 words (quick mini, thorough full), 4 words (thorough, micro); byte lengths 4/12/20; 2-3 segments (1-1, 0-1, 1-0 core; 1-2, 2-1, 1-1-1 micro/mini; thorough also 0-2, 1-0-1, 0-1-1 core and 2-2, 1-3, 1-1-2 micro); harness arenas whose Data fails for one id or that claim 0 / n+1 / 2^32 segments; Z-shaped frames (every union discriminant x pointer word x target word) and Counter/HoldsText/Regression/PlaneBase-shaped frames for the typed consumers; all 1-2 word pointer-only cycles with the full default budget in isolated child processes; thorough: one 512 KiB+16 segment with size-extreme first words (2^19, 2^22, 2^29 element boundaries). Every message under bare Single/MultiSegment arenas, a harness Arena, Unmarshal, UnmarshalPacked(ref.Pack), NewDecoder, NewPackedDecoder and a buffer-reusing Decoder; messages that hand out at least one object additionally under T in {default,64,2^40} x D in {default,3} (full framing x limit product for <= 2 words, first framing only above). The walker applies the read-side API to everything reachable to depth 6: Root, struct accessors at first/last/beyond offsets, Ptr/HasPtr, every list wrapper Len/At(0)/At(Len-1)/String, Text/Data, and on the root object, its children and the first element of a root list Equal, Canonicalize, SetRoot deep copy into fresh Single/Multi messages, text.Marshal and pogs.Extract (Z on every root struct; PlaneBase/Regression/HoldsText/Counter on <= 2-word messages and the typed frames). Oracle: no panic, no fatal error, no hang, Len() >= 0, returned byte slices inside the supplied segment memory (segments carved cap==len from a canary slab). A message is non-trivial if the library handed out at least one non-null object for it.",
 		Assumptions: []string{
-			"recursive consumers (Equal, SetRoot, Canonicalize, text, pogs) run with the traversal budget clamped to 4 KiB on messages that declare lists of more than 1024 elements or whose unfolded pointer graph has >= 400 nodes (time/memory at the default 64 MiB budget is otherwise exponential in the depth limit); the budget accounting itself is C02's subject",
+			"recursive consumers (Equal, SetRoot, Canonicalize, text, pogs) run with the traversal budget clamped to 4 KiB on messages that are cyclic, declare lists of more than 1024 elements, or whose unfolded pointer graph has >= 400 nodes (time/memory at the default 64 MiB budget is otherwise exponential in the depth limit); the unclamped default budget is exercised on the 1-2 word single-path cycles (family cycles-unclamped-isolated); the budget accounting itself is C02's subject",
 			"limit configurations other than the default are applied only to messages for which the default configuration hands out at least one object (every earlier failure precedes the budget and depth checks in segment.go readPtr)",
+			"stream framings (Unmarshal, decoders) of messages of more than 2 words get the accessor walk without the recursive consumers: they differ from the bare arena only in how the segment memory is obtained",
 			"list elements other than index 0 and Len-1 are not touched; documented programmer-error panics (index >= Len, setters) are never provoked",
+			"pogs.Extract results are range-checked only for fields pogs documents as aliasing the segment (Data, Text extracted into []byte)",
 		},
 		Families: families,
 		SelfTest: selfTest,
